@@ -228,7 +228,9 @@ def sgrad(t):
 
 
 SBOX = {"unit": (np.array([0.0, -1.0]), np.array([1.0, 0.5])), "far": (np.array([1e4, -3e-3]), np.array([1e4 + 2.0, 2e-3])),
-        "neg": (np.array([-5.0, -2.0]), np.array([-4.0, -0.5]))}
+        "neg": (np.array([-5.0, -2.0]), np.array([-4.0, -0.5])),
+        # narrower than 1e-5 of its own location: relative steps of any helper computation are larger than the box
+        "narrow-far": (np.array([1e4, -5e3]), np.array([1e4 + 0.05, -5e3 + 0.02]))}
 
 
 def ev_sampler(case):
@@ -365,7 +367,9 @@ def run(ck):
                 for d in (1, 2):
                     if kind == "EnsembleSampler" and where != "inside" and q:
                         continue
-                    if q and (boxname, d) in (("far", 1), ("neg", 2)):
+                    if q and (boxname, d) in (("far", 1), ("neg", 2), ("narrow-far", 1)):
+                        continue
+                    if boxname == "narrow-far" and q and not kind.startswith("Hamiltonian") and where != "inside":
                         continue
                     alph = [-50.0, -3.0, -0.3, 0.3, 3.0, 50.0] if d == 1 else [-50.0, -0.3, 0.3, 50.0]
                     c = dict(sampler=kind, box=boxname, start=where, d=d, alphabet=alph, steps=1 if q else 2, bound=3)
